@@ -214,7 +214,17 @@ Inductive case :=
      list's URL; fault as for CSetUrl; observed: error reported, file
      afterwards.  Bytes. *)
   | CStatus (old : option data) (web : list (N * answer)) (url : N) (fault : N)
-            (obs_err : bool) (obs_file : option data).
+            (obs_err : bool) (obs_file : option data)
+  (* Round 7 (M): CSetUrl after a restart of the filtering module between the
+     preparation and the judged call: the checksum in memory is what a start
+     leaves (Model.SaveLoop.start_sum: enabled lists only). *)
+  | CSetUrlR (old : option data) (enabled : bool) (url_changes taken new_enabled : bool)
+             (status : N) (chunks : list data) (cut : bool) (fault : N)
+             (obs_err obs_restart : bool) (obs_file : option data)
+  (* Round 7 (N): the ids of the lists of both arrays over a history of starts
+     (with the seed the generator got: the clock) and successful add_url
+     calls; observed: the ids of both arrays at the end. *)
+  | CIds (block allow : list N) (cur : N) (ops : list idop) (obs_block obs_allow : list N).
 
 
 (** *** Round 5: the list scenarios (bytes; the line processor [simple_pl]
@@ -270,6 +280,18 @@ Definition overlap_checks (lists : list (N * list data * bool * N * option data)
                | None => false
                end end) lists;
     Nat.eqb (length obs) (length lists) ].
+
+Definition IRestart : N -> idop := SaveLoop.IRestart.
+Definition IAdd : bool -> idop := SaveLoop.IAdd.
+
+Fixpoint nodupb (l : list N) : bool :=
+  match l with [] => true | x :: r => negb (existsb (N.eqb x) r) && nodupb r end.
+
+(** 1, 2 the arrays are what the model's generator gives; 3 no two lists of
+    the two arrays share an id (a file). *)
+Definition ids_checks (block allow : list N) (cur : N) (ops : list idop) (ob oa : list N) : list bool :=
+  let st := idrun seed_clock {| ids_block := block; ids_allow := allow; id_cur := cur |} ops in
+  [ eqb_list N.eqb (ids_block st) ob; eqb_list N.eqb (ids_allow st) oa; nodupb (ob ++ oa) ].
 
 Definition seturl_model (old : option data) (enabled loaded url_changes taken new_enabled : bool) (status : N)
            (chunks : list data) (cut : bool) (fault : N) :=
@@ -378,6 +400,9 @@ Definition checks (c : case) : list bool :=
   | CMigTrace oldp dst keep ents t bm ord lens vers saves =>
       trace_checks dst keep ents t bm ord lens vers saves ++ [mig_pairs_ok dst oldp (boot ents) t]
   | CStatus old web url fl oe ofile => status_checks old web url fl oe ofile
+  | CSetUrlR old en uc tk ne so ch cut fl oe orr ofile =>
+      seturl_checks old en (negb (start_sum false big_sum en old =? 0)) uc tk ne so ch cut fl oe orr ofile
+  | CIds b a cur ops ob oa => ids_checks b a cur ops ob oa
   end.
 
 Definition case_ok (c : case) : bool := forallb (fun b => b) (checks c).
@@ -399,6 +424,7 @@ Inductive expl :=
   | XMigTrace (x : list bool * option N * option N * option N * list path * list (option N) * list (option data))
               (bad_save : option (list op * N * list op)) (bad_pairs : list (option data * option data))
   | XStatus (verdicts : list bool) (final_status : option N) (ops : list op) (outcome : N) (file : option data)
+  | XIds (verdicts : list bool) (block allow : list N)
   | XOverlap (verdicts : list bool) (results : list (N * option (list data * bool))) (files : list (N * option data))
   | XSetUrl (verdicts : list bool) (ops : list op) (err : bool) (restart : option bool) (file : option data).
 
@@ -424,6 +450,15 @@ Definition explain (c : case) : expl :=
       let x := status_model old web url fl in
       XStatus (checks c) (final_status_of web url) (fst x) (outcome_class (snd x))
               (live_view (run (oboot old) (fst x)) 1)
+  | CSetUrlR old en uc tk ne so ch cut fl oe orr ofile =>
+      let x := seturl_model old en (negb (start_sum false big_sum en old =? 0)) uc tk ne so ch cut fl in
+      XSetUrl (checks c) (fst (fst x))
+              (match snd (fst x) with SetErr => true | SetOk _ => false end)
+              (match snd (fst x) with SetErr => None | SetOk r => Some r end)
+              (live_view (run (oboot old) (fst (fst x))) 1)
+  | CIds b a cur ops ob oa =>
+      let st := idrun seed_clock {| ids_block := b; ids_allow := a; id_cur := cur |} ops in
+      XIds (checks c) (ids_block st) (ids_allow st)
   | COverlap lists sched obs =>
       let w := overlap_world lists sched in
       XOverlap (checks c)
